@@ -1203,6 +1203,15 @@ func (c *rowopsCtx) pathOracle() {
 	if doc.hasDupKeys() {
 		return
 	}
+	if r.intn(3) == 0 {
+		// members whose NAME contains a dot: a path never designates them (its dots separate segments)
+		for _, dotted := range []string{"a.b", "b.", ".c", "a.b.c"} {
+			if r.bool() {
+				doc.keys = append(doc.keys, dotted)
+				doc.kids = append(doc.kids, &jnode{kind: 's', s: "literal member " + dotted})
+			}
+		}
+	}
 	var sb strings.Builder
 	doc.text(&sb)
 	txt := sb.String()
